@@ -298,8 +298,18 @@ def has_echo(case):
 
 
 def augment(case, impl_obs):
-    if has_echo(case):
-        return case
+    scripts = [o[1:] for o in case.ops if o and o[0] == 10 and len(o) % 2 == 1]
+    vals = [set(sc[i + 1] for i in range(0, len(sc) - 1, 2) if sc[i] == 1) for sc in scripts]
+    echo = [k for k, sc in enumerate(scripts) if any(sc[i] == 9 for i in range(0, len(sc) - 1, 2))] if case.engine == "aggr1" else []
+
+    def source_of(v):
+        cand = [k for k, vs in enumerate(vals) if v in vs]
+        if len(cand) == 1 and not (echo and v < 1000):
+            return cand[0]
+        if not cand and len(echo) == 1:
+            return echo[0]          # an echoed argument can only come from the one echoing source
+        return None
+
     ops = []
     for k, op in enumerate(case.ops):
         o = list(op)
@@ -308,7 +318,9 @@ def augment(case, impl_obs):
             base = 3 if o[0] == 1 else 4
             if len(o) == base and len(a) > 2 and a[0] == "0" and a[1] == "1":
                 try:
-                    o = o + [int(a[2]) // 1000]
+                    src = source_of(int(a[2]))
+                    if src is not None:
+                        o = o + [src]
                 except ValueError:
                     pass
         ops.append(o)
